@@ -264,3 +264,22 @@ Print Assumptions tc_form_sg.
 Print Assumptions example_renamed_ast.
 Print Assumptions example_admissible.
 Print Assumptions example_runs.
+
+(* The Go methods the run-time half rests on — the methods `Substitute` of the form types of process/form.go — TRANSLATED
+   from the current source on this run (`probe formops`, go/ast -> gen/FormOps.v, a table of the IR
+   of FormIR.v): the interpretation of what the code says NOW is the model `Subst.subst` that the
+   theorems above are about (which binder stops which substitution, in which order). *)
+Require Grits.FormIR Grits.gen.FormOps Grits.proofs.FormOpsAgree.
+Theorem C14_formops_structs : FormIR.t_structs FormOps.table = FormIR.expected_structs.
+Proof. exact FormOpsAgree.formops_structs. Qed.
+Theorem C14_formops_subst_wf : FormIR.subst_table_ok FormOps.table = true.
+Proof. exact FormOpsAgree.formops_subst_wf. Qed.
+Theorem C14_formops_subst_agrees : forall old new f, FormIR.ir_subst FormOps.table old new f = Subst.subst old new f.
+Proof. exact FormOpsAgree.formops_subst_agrees. Qed.
+Theorem C14_formops_subst_brs_agrees : forall old new b, FormIR.ir_subst_brs FormOps.table old new b = Subst.subst_brs old new b.
+Proof. exact FormOpsAgree.formops_subst_brs_agrees. Qed.
+
+Print Assumptions C14_formops_structs.
+Print Assumptions C14_formops_subst_wf.
+Print Assumptions C14_formops_subst_agrees.
+Print Assumptions C14_formops_subst_brs_agrees.
